@@ -122,6 +122,8 @@ class LinksMachine(TraceMachine):
         """Resolve a drawn index to an entry that exists now (modulo the current population)."""
         pop = [s for s in SLOTS if os.path.lexists(self.p(s))
                and (not dirs_only or (os.path.isdir(self.p(s)) and not os.path.islink(self.p(s))))]
+        # recorded, still untouched entries are where the guard matters: list them twice
+        pop = pop + [s for s in pop if self.model[s]["recorded"] and not self.model[s]["touched"]]
         return pop[slot % len(pop)] if pop else None
 
     def missing(self, slot):
